@@ -1,0 +1,285 @@
+//go:build verif
+
+package configmigrate
+
+// Contracts for govc (see /verif/DESIGN.md).  This file is comment-only and is compiled only with -tags=verif.
+
+// ---- C13: configuration upgrade ----
+// The generic YAML helpers are inlined into every step (their instantiated bodies are verified at each call site).
+//@ func fieldVal(obj yobj, key string) (v T, ok bool, err error)
+//@   inline
+//@ func moveVal(src yobj, dst yobj, srcKey string, dstKey string) (err error)
+//@   inline
+//@ func moveSameVal(src yobj, dst yobj, key string) (err error)
+//@   inline
+
+//@ func (m *Migrator) migrateTo1(diskConf yobj) (err error)
+//@   property C13
+//@   requires diskConf != nil
+//@   modifies *
+//@   ensures stamped: ("schema_version" in diskConf) && diskConf["schema_version"] == int(1)
+//@   loop 1 invariant ("schema_version" in diskConf) && diskConf["schema_version"] == int(1)
+//@   loop 2 invariant ("schema_version" in diskConf) && diskConf["schema_version"] == int(1)
+//@   loop 3 invariant ("schema_version" in diskConf) && diskConf["schema_version"] == int(1)
+
+//@ func (m *Migrator) migrateTo2(diskConf yobj) (err error)
+//@   property C13
+//@   requires diskConf != nil
+//@   modifies *
+//@   ensures stamped: ("schema_version" in diskConf) && diskConf["schema_version"] == int(2)
+//@   loop 1 invariant ("schema_version" in diskConf) && diskConf["schema_version"] == int(2)
+//@   loop 2 invariant ("schema_version" in diskConf) && diskConf["schema_version"] == int(2)
+//@   loop 3 invariant ("schema_version" in diskConf) && diskConf["schema_version"] == int(2)
+
+//@ func migrateTo3(diskConf yobj) (err error)
+//@   property C13
+//@   requires diskConf != nil
+//@   modifies *
+//@   ensures stamped: ("schema_version" in diskConf) && diskConf["schema_version"] == int(3)
+//@   loop 1 invariant ("schema_version" in diskConf) && diskConf["schema_version"] == int(3)
+//@   loop 2 invariant ("schema_version" in diskConf) && diskConf["schema_version"] == int(3)
+//@   loop 3 invariant ("schema_version" in diskConf) && diskConf["schema_version"] == int(3)
+
+//@ func migrateTo4(diskConf yobj) (err error)
+//@   property C13
+//@   requires diskConf != nil
+//@   modifies *
+//@   ensures stamped: ("schema_version" in diskConf) && diskConf["schema_version"] == int(4)
+//@   loop 1 invariant ("schema_version" in diskConf) && diskConf["schema_version"] == int(4)
+//@   loop 2 invariant ("schema_version" in diskConf) && diskConf["schema_version"] == int(4)
+//@   loop 3 invariant ("schema_version" in diskConf) && diskConf["schema_version"] == int(4)
+
+//@ func migrateTo5(diskConf yobj) (err error)
+//@   property C13
+//@   requires diskConf != nil
+//@   modifies *
+//@   ensures stamped: ("schema_version" in diskConf) && diskConf["schema_version"] == int(5)
+//@   loop 1 invariant ("schema_version" in diskConf) && diskConf["schema_version"] == int(5)
+//@   loop 2 invariant ("schema_version" in diskConf) && diskConf["schema_version"] == int(5)
+//@   loop 3 invariant ("schema_version" in diskConf) && diskConf["schema_version"] == int(5)
+
+//@ func migrateTo6(diskConf yobj) (err error)
+//@   property C13
+//@   requires diskConf != nil
+//@   modifies *
+//@   ensures stamped: ("schema_version" in diskConf) && diskConf["schema_version"] == int(6)
+//@   loop 1 invariant ("schema_version" in diskConf) && diskConf["schema_version"] == int(6)
+//@   loop 2 invariant ("schema_version" in diskConf) && diskConf["schema_version"] == int(6)
+//@   loop 3 invariant ("schema_version" in diskConf) && diskConf["schema_version"] == int(6)
+
+//@ func migrateTo7(diskConf yobj) (err error)
+//@   property C13
+//@   requires diskConf != nil
+//@   modifies *
+//@   ensures stamped: ("schema_version" in diskConf) && diskConf["schema_version"] == int(7)
+//@   loop 1 invariant ("schema_version" in diskConf) && diskConf["schema_version"] == int(7)
+//@   loop 2 invariant ("schema_version" in diskConf) && diskConf["schema_version"] == int(7)
+//@   loop 3 invariant ("schema_version" in diskConf) && diskConf["schema_version"] == int(7)
+
+//@ func migrateTo8(diskConf yobj) (err error)
+//@   property C13
+//@   requires diskConf != nil
+//@   modifies *
+//@   ensures stamped: ("schema_version" in diskConf) && diskConf["schema_version"] == int(8)
+//@   loop 1 invariant ("schema_version" in diskConf) && diskConf["schema_version"] == int(8)
+//@   loop 2 invariant ("schema_version" in diskConf) && diskConf["schema_version"] == int(8)
+//@   loop 3 invariant ("schema_version" in diskConf) && diskConf["schema_version"] == int(8)
+
+//@ func migrateTo9(diskConf yobj) (err error)
+//@   property C13
+//@   requires diskConf != nil
+//@   modifies *
+//@   ensures stamped: ("schema_version" in diskConf) && diskConf["schema_version"] == int(9)
+//@   loop 1 invariant ("schema_version" in diskConf) && diskConf["schema_version"] == int(9)
+//@   loop 2 invariant ("schema_version" in diskConf) && diskConf["schema_version"] == int(9)
+//@   loop 3 invariant ("schema_version" in diskConf) && diskConf["schema_version"] == int(9)
+
+//@ func migrateTo10(diskConf yobj) (err error)
+//@   property C13
+//@   requires diskConf != nil
+//@   modifies *
+//@   ensures stamped: ("schema_version" in diskConf) && diskConf["schema_version"] == int(10)
+//@   loop 1 invariant ("schema_version" in diskConf) && diskConf["schema_version"] == int(10)
+//@   loop 2 invariant ("schema_version" in diskConf) && diskConf["schema_version"] == int(10)
+//@   loop 3 invariant ("schema_version" in diskConf) && diskConf["schema_version"] == int(10)
+
+//@ func migrateTo11(diskConf yobj) (err error)
+//@   property C13
+//@   requires diskConf != nil
+//@   modifies *
+//@   ensures stamped: ("schema_version" in diskConf) && diskConf["schema_version"] == int(11)
+//@   loop 1 invariant ("schema_version" in diskConf) && diskConf["schema_version"] == int(11)
+//@   loop 2 invariant ("schema_version" in diskConf) && diskConf["schema_version"] == int(11)
+//@   loop 3 invariant ("schema_version" in diskConf) && diskConf["schema_version"] == int(11)
+
+//@ func migrateTo12(diskConf yobj) (err error)
+//@   property C13
+//@   requires diskConf != nil
+//@   modifies *
+//@   ensures stamped: ("schema_version" in diskConf) && diskConf["schema_version"] == int(12)
+//@   loop 1 invariant ("schema_version" in diskConf) && diskConf["schema_version"] == int(12)
+//@   loop 2 invariant ("schema_version" in diskConf) && diskConf["schema_version"] == int(12)
+//@   loop 3 invariant ("schema_version" in diskConf) && diskConf["schema_version"] == int(12)
+
+//@ func migrateTo13(diskConf yobj) (err error)
+//@   property C13
+//@   requires diskConf != nil
+//@   modifies *
+//@   ensures stamped: ("schema_version" in diskConf) && diskConf["schema_version"] == int(13)
+//@   loop 1 invariant ("schema_version" in diskConf) && diskConf["schema_version"] == int(13)
+//@   loop 2 invariant ("schema_version" in diskConf) && diskConf["schema_version"] == int(13)
+//@   loop 3 invariant ("schema_version" in diskConf) && diskConf["schema_version"] == int(13)
+
+//@ func migrateTo14(diskConf yobj) (err error)
+//@   property C13
+//@   requires diskConf != nil
+//@   modifies *
+//@   ensures stamped: ("schema_version" in diskConf) && diskConf["schema_version"] == int(14)
+//@   loop 1 invariant ("schema_version" in diskConf) && diskConf["schema_version"] == int(14)
+//@   loop 2 invariant ("schema_version" in diskConf) && diskConf["schema_version"] == int(14)
+//@   loop 3 invariant ("schema_version" in diskConf) && diskConf["schema_version"] == int(14)
+
+//@ func migrateTo15(diskConf yobj) (err error)
+//@   property C13
+//@   requires diskConf != nil
+//@   modifies *
+//@   ensures stamped: ("schema_version" in diskConf) && diskConf["schema_version"] == int(15)
+//@   loop 1 invariant ("schema_version" in diskConf) && diskConf["schema_version"] == int(15)
+//@   loop 2 invariant ("schema_version" in diskConf) && diskConf["schema_version"] == int(15)
+//@   loop 3 invariant ("schema_version" in diskConf) && diskConf["schema_version"] == int(15)
+
+//@ func migrateTo16(diskConf yobj) (err error)
+//@   property C13
+//@   requires diskConf != nil
+//@   modifies *
+//@   ensures stamped: ("schema_version" in diskConf) && diskConf["schema_version"] == int(16)
+//@   loop 1 invariant ("schema_version" in diskConf) && diskConf["schema_version"] == int(16)
+//@   loop 2 invariant ("schema_version" in diskConf) && diskConf["schema_version"] == int(16)
+//@   loop 3 invariant ("schema_version" in diskConf) && diskConf["schema_version"] == int(16)
+
+//@ func migrateTo17(diskConf yobj) (err error)
+//@   property C13
+//@   requires diskConf != nil
+//@   modifies *
+//@   ensures stamped: ("schema_version" in diskConf) && diskConf["schema_version"] == int(17)
+//@   loop 1 invariant ("schema_version" in diskConf) && diskConf["schema_version"] == int(17)
+//@   loop 2 invariant ("schema_version" in diskConf) && diskConf["schema_version"] == int(17)
+//@   loop 3 invariant ("schema_version" in diskConf) && diskConf["schema_version"] == int(17)
+
+//@ func migrateTo18(diskConf yobj) (err error)
+//@   property C13
+//@   requires diskConf != nil
+//@   modifies *
+//@   ensures stamped: ("schema_version" in diskConf) && diskConf["schema_version"] == int(18)
+//@   loop 1 invariant ("schema_version" in diskConf) && diskConf["schema_version"] == int(18)
+//@   loop 2 invariant ("schema_version" in diskConf) && diskConf["schema_version"] == int(18)
+//@   loop 3 invariant ("schema_version" in diskConf) && diskConf["schema_version"] == int(18)
+
+//@ func migrateTo19(diskConf yobj) (err error)
+//@   property C13
+//@   requires diskConf != nil
+//@   modifies *
+//@   ensures stamped: ("schema_version" in diskConf) && diskConf["schema_version"] == int(19)
+//@   loop 1 invariant ("schema_version" in diskConf) && diskConf["schema_version"] == int(19)
+//@   loop 2 invariant ("schema_version" in diskConf) && diskConf["schema_version"] == int(19)
+//@   loop 3 invariant ("schema_version" in diskConf) && diskConf["schema_version"] == int(19)
+
+//@ func migrateTo20(diskConf yobj) (err error)
+//@   property C13
+//@   requires diskConf != nil
+//@   modifies *
+//@   ensures stamped: ("schema_version" in diskConf) && diskConf["schema_version"] == int(20)
+//@   loop 1 invariant ("schema_version" in diskConf) && diskConf["schema_version"] == int(20)
+//@   loop 2 invariant ("schema_version" in diskConf) && diskConf["schema_version"] == int(20)
+//@   loop 3 invariant ("schema_version" in diskConf) && diskConf["schema_version"] == int(20)
+
+//@ func migrateTo21(diskConf yobj) (err error)
+//@   property C13
+//@   requires diskConf != nil
+//@   modifies *
+//@   ensures stamped: ("schema_version" in diskConf) && diskConf["schema_version"] == int(21)
+//@   loop 1 invariant ("schema_version" in diskConf) && diskConf["schema_version"] == int(21)
+//@   loop 2 invariant ("schema_version" in diskConf) && diskConf["schema_version"] == int(21)
+//@   loop 3 invariant ("schema_version" in diskConf) && diskConf["schema_version"] == int(21)
+
+//@ func migrateTo22(diskConf yobj) (err error)
+//@   property C13
+//@   requires diskConf != nil
+//@   modifies *
+//@   ensures stamped: ("schema_version" in diskConf) && diskConf["schema_version"] == int(22)
+//@   loop 1 invariant ("schema_version" in diskConf) && diskConf["schema_version"] == int(22)
+//@   loop 2 invariant ("schema_version" in diskConf) && diskConf["schema_version"] == int(22)
+//@   loop 3 invariant ("schema_version" in diskConf) && diskConf["schema_version"] == int(22)
+
+//@ func migrateTo23(diskConf yobj) (err error)
+//@   property C13
+//@   requires diskConf != nil
+//@   modifies *
+//@   ensures stamped: ("schema_version" in diskConf) && diskConf["schema_version"] == int(23)
+//@   loop 1 invariant ("schema_version" in diskConf) && diskConf["schema_version"] == int(23)
+//@   loop 2 invariant ("schema_version" in diskConf) && diskConf["schema_version"] == int(23)
+//@   loop 3 invariant ("schema_version" in diskConf) && diskConf["schema_version"] == int(23)
+
+//@ func migrateTo24(diskConf yobj) (err error)
+//@   property C13
+//@   requires diskConf != nil
+//@   modifies *
+//@   ensures stamped: ("schema_version" in diskConf) && diskConf["schema_version"] == int(24)
+//@   loop 1 invariant ("schema_version" in diskConf) && diskConf["schema_version"] == int(24)
+//@   loop 2 invariant ("schema_version" in diskConf) && diskConf["schema_version"] == int(24)
+//@   loop 3 invariant ("schema_version" in diskConf) && diskConf["schema_version"] == int(24)
+
+//@ func migrateTo25(diskConf yobj) (err error)
+//@   property C13
+//@   requires diskConf != nil
+//@   modifies *
+//@   ensures stamped: ("schema_version" in diskConf) && diskConf["schema_version"] == int(25)
+//@   loop 1 invariant ("schema_version" in diskConf) && diskConf["schema_version"] == int(25)
+//@   loop 2 invariant ("schema_version" in diskConf) && diskConf["schema_version"] == int(25)
+//@   loop 3 invariant ("schema_version" in diskConf) && diskConf["schema_version"] == int(25)
+
+//@ func migrateTo26(diskConf yobj) (err error)
+//@   property C13
+//@   requires diskConf != nil
+//@   modifies *
+//@   ensures stamped: ("schema_version" in diskConf) && diskConf["schema_version"] == int(26)
+//@   loop 1 invariant ("schema_version" in diskConf) && diskConf["schema_version"] == int(26)
+//@   loop 2 invariant ("schema_version" in diskConf) && diskConf["schema_version"] == int(26)
+//@   loop 3 invariant ("schema_version" in diskConf) && diskConf["schema_version"] == int(26)
+
+//@ func migrateTo27(diskConf yobj) (err error)
+//@   property C13
+//@   requires diskConf != nil
+//@   modifies *
+//@   ensures stamped: ("schema_version" in diskConf) && diskConf["schema_version"] == int(27)
+//@   loop 1 invariant ("schema_version" in diskConf) && diskConf["schema_version"] == int(27)
+//@   loop 2 invariant ("schema_version" in diskConf) && diskConf["schema_version"] == int(27)
+//@   loop 3 invariant ("schema_version" in diskConf) && diskConf["schema_version"] == int(27)
+
+//@ func migrateTo28(diskConf yobj) (err error)
+//@   property C13
+//@   requires diskConf != nil
+//@   modifies *
+//@   ensures stamped: ("schema_version" in diskConf) && diskConf["schema_version"] == int(28)
+//@   loop 1 invariant ("schema_version" in diskConf) && diskConf["schema_version"] == int(28)
+//@   loop 2 invariant ("schema_version" in diskConf) && diskConf["schema_version"] == int(28)
+//@   loop 3 invariant ("schema_version" in diskConf) && diskConf["schema_version"] == int(28)
+
+//@ func (m Migrator) migrateTo29(diskConf yobj) (err error)
+//@   property C13
+//@   requires diskConf != nil
+//@   modifies *
+//@   ensures stamped: ("schema_version" in diskConf) && diskConf["schema_version"] == int(29)
+//@   loop 1 invariant ("schema_version" in diskConf) && diskConf["schema_version"] == int(29)
+//@   loop 2 invariant ("schema_version" in diskConf) && diskConf["schema_version"] == int(29)
+//@   loop 3 invariant ("schema_version" in diskConf) && diskConf["schema_version"] == int(29)
+
+//@ func validateVersion(current uint, target uint) (err error)
+//@   property C13
+//@   modifies nothing
+//@   ensures (err == nil) == (current <= target && target <= 29)
+
+//@ func (m *Migrator) Migrate(body []byte, target uint) (newBody []byte, upgraded bool, err error)
+//@   property C13
+//@   modifies *
+//@   ensures error-leaves-unchanged: err != nil ==> newBody == body && !upgraded
